@@ -205,7 +205,7 @@ def _kinds(slots):
 
 _EN = {}
 CAPS = {
-    "django": {"neg": False, "null_left": True, "matchesPattern": True, "second": True, "time": True, "bare_bool": False, "boolcmp": "restricted"},
+    "django": {"neg": False, "null_left": True, "matchesPattern": True, "second": True, "time": True, "bare_bool": False},
     "sa": {"neg": False, "null_left": True, "second": True, "bare_bool": False},
 }
 
